@@ -29,7 +29,14 @@ ASSUMPTIONS = ["memory-error detection is as good as ASan/UBSan (clang 14)", "'b
                "crash identity = (kind, innermost in-repo function), never line numbers"]
 NONTRIVIAL_FLOOR = 20
 
-EDGE = [b"#define X(", b"#define X(a", b"#if 1 /", b"#if 1 / 0\n#endif\n", b"#if 1 % 0\n#endif\n", b"#if (-2147483647 - 1) / -1\n#endif\n", b"#if (-2147483647 - 1) % -1\n#endif\n", b"enum { a = (1 << 31) % -1, b = -2147483648 % -1 };\n", b"#if 1 % (1 - 1)\n#endif\n",
+EDGE = [b"int f(); constexpr bool vb1 = f(); static_assert(vb1, \"\");\n", b"int g(); const bool vb2 = g() > 0; int arr2[vb2 ? 1 : 2];\n",
+        b"constexpr bool vb3 = 1 / 0; enum { e3 = vb3 };\n", b"const bool vb4 = \"s\"; static_assert(!vb4, \"\");\n",
+        b"extern const int ex5; const bool vb5 = ex5; char c5[vb5 + 1];\n", b"int f(); constexpr char vc6 = f(); static_assert(vc6 == 0, \"\");\n",
+        b"int f(); constexpr short vs7 = f(); enum E7 { e7 = vs7 }; constexpr unsigned char vu7 = vs7; int a7[vu7];\n",
+        b"constexpr bool vb8 = nullptr; constexpr bool vb9 = 1.5; constexpr bool vb10 = vb8 || vb9; static_assert(vb10, \"\");\n",
+        b"template<int N> struct F { enum { v = F<N-1>::v }; };\ntemplate<> struct F<0> { enum { v = 0 }; };\nF<3> f; enum { six = F<3>::v };\n",
+        b"template<int N> struct F { static const int v = N * F<N-1>::v; };\nF<3> *f;\n", b"template<class T> struct G { enum { v = G<T*>::v }; typedef typename G<T*>::type type; };\nG<int> g;\n",
+        b"#define X(", b"#define X(a", b"#if 1 /", b"#if 1 / 0\n#endif\n", b"#if 1 % 0\n#endif\n", b"#if (-2147483647 - 1) / -1\n#endif\n", b"#if (-2147483647 - 1) % -1\n#endif\n", b"enum { a = (1 << 31) % -1, b = -2147483648 % -1 };\n", b"#if 1 % (1 - 1)\n#endif\n",
         b"#if 1 << 40\n#endif\n", b"#if 1 >> -1\n#endif\n", b"#if\n#endif\n", b"#elif 1\n", b"#endif\n", b"#else\n", b"#include\n", b"#include <\n", b"#include \"\n",
         b"#define\n", b"#undef\n", b"#pragma\n", b"#pragma once", b"#", b"# 12 \"x\"\n", b"\"unterminated", b"'u", b"'\\", b"R\"x(abc", b"R\"(", b"R\"toolongdelimiterxxxxxxxxxxxx(a)toolongdelimiterxxxxxxxxxxxx\"",
         b"/* unterminated", b"// line\\\n", b"int a[1^3];", b"enum { a = 1 / 0 };", b"enum { a = 1 % 0 };", b"int a[(1, 2)];", b"int a[-1];",
@@ -141,11 +148,11 @@ def fuzz_stage(ctx, stats):
     os.makedirs(arts)
     n = 0
     for sd in seed_files():
-        for sel in (0x10, 0x11, 0x13, 0x00):
+        for sel in (0x10, 0x11, 0x13, 0x00, 0x31):
             open(os.path.join(corpus, "seed%04d" % n), "wb").write(bytes([sel]) + sd[:20000])
             n += 1
     for e in EDGE:
-        for sel in (0x10, 0x11, 0x12, 0x13):
+        for sel in (0x10, 0x11, 0x12, 0x13, 0x31, 0x30):
             open(os.path.join(corpus, "seed%04d" % n), "wb").write(bytes([sel]) + e)
             n += 1
     dct = os.path.join(work, "dict.txt")
